@@ -431,7 +431,12 @@ func luaLoose(t *rapid.T, depth int) string {
 var hugeLit = regexp.MustCompile(`0[xX][0-9A-Fa-f]{5,}|\d{6,}|\d(\.\d+)?[eE]\+?\d+`)
 var staticIdx = regexp.MustCompile(`^(-?\d{1,5}|"[^"]*"|-?\d{0,5}:-?\d{0,5}|)$`)
 
+var dotDigits = regexp.MustCompile(`\.\d{6,}`)
+
 func hasDynamicIndex(e string) bool {
+	if dotDigits.MatchString(e) {
+		return true // `.123456` is an index when the node is a sequence
+	}
 	if strings.Contains(e, "setpath") || strings.Contains(e, "set_path") || strings.Contains(e, "pick") {
 		return true
 	}
@@ -457,6 +462,15 @@ func hasDynamicIndex(e string) bool {
 		}
 	}
 	return false
+}
+
+// BoundCase applies the bound to an expression and to the input it runs on:
+// with a dynamic index, numbers of the document can become indices too.
+func BoundCase(e, input string) (string, string) {
+	if !hasDynamicIndex(e) {
+		return e, input
+	}
+	return hugeLit.ReplaceAllString(e, "7"), hugeLit.ReplaceAllString(input, "7")
 }
 
 // BoundIndices applies the generator bound described above.
